@@ -369,9 +369,10 @@ def run_array(doc, log):
 # weak forms (their code objects get LINE yield points)
 # ----------------------------------------------------------------------------------------
 class CallCounter:
-    def __init__(self, fail_call=None):
+    def __init__(self, fail_call=None, fail_kind="error"):
         self.n = 0
         self.fail_call = fail_call
+        self.fail_kind = fail_kind
         self.fired = False
 
     def tick(self):
@@ -379,6 +380,14 @@ class CallCounter:
         self.n += 1
         if self.fail_call is not None and n == self.fail_call:
             self.fired = True
+            if self.fail_kind == "abort":
+                from ..kernel import SimAbort
+
+                raise SimAbort("injected: abort hook fired in weak form")
+            if self.fail_kind == "kbint":
+                e = KeyboardInterrupt("injected")
+                e._fesim_injected = True
+                raise e
             raise SimWorkerError("injected: allocation failed in weak form")
 
 
@@ -619,7 +628,7 @@ def run_form(doc, log):
     nthreads = 0
     for sidx, sc in enumerate(f["schedules"]):
         fail_call = f.get("fail_call") if sidx == len(f["schedules"]) - 1 else None
-        c = CallCounter(fail_call)
+        c = CallCounter(fail_call, fail_kind=("error", "abort", "kbint")[f.get("fail_call", 0) % 3 if f.get("coef_seed", 0) % 2 else 0])
         pool = SimPool(processes=3, rng=Streams(f["coef_seed"])["pool"], order="shuffle") if f.get("basis_parallel") else None
         if pool is not None:
             with pool:
